@@ -491,6 +491,7 @@ func runC17Client(rcx *RunCtx) {
 			})
 		}
 		simrt.Block("callers done", func() bool { return done == ncallers })
+		simrt.Join()
 		cw.shutdownSock(sr)
 		rcx.Findings = append(rcx.Findings, fake.Findings...)
 	})
@@ -653,6 +654,7 @@ func runC18Client(rcx *RunCtx) {
 			})
 		}
 		simrt.Block("callers done", func() bool { return done == ncallers })
+		simrt.Join()
 		cw.shutdown()
 		rcx.Findings = append(rcx.Findings, fake.Findings...)
 	})
